@@ -43,7 +43,7 @@ INVALID_POWERS = [0.5, 0.3, 1.01, 0.0, -1.0, float("nan"), 2]
 def make_plan(seed: int, tier: str) -> dict:
     rng = SimRng(seed)
     st = rng.stream("plan")
-    cfg = fitsim.gen_fit_cfg(rng.stream("world"), max_iter=12 if tier == "quick" else 40, allow_mixture=(tier == "thorough"))
+    cfg = fitsim.gen_fit_cfg(rng.stream("world"), max_iter=12 if tier == "quick" else 40, allow_mixture=True)
     cfg["n_iter"] = st.randint(1, 12 if tier == "quick" else 40)
     n_iter = cfg["n_iter"]
     cfg.pop("n_burn_in_iter", None)
